@@ -394,13 +394,29 @@ func c20RunScenario(c *core.Ctx, sc c20Scenario, bound int, maxExec int64) core.
 	if err != nil {
 		return core.Fail("HARNESS: %v", err)
 	}
-	r1 := fmt.Sprint(x1.Results, len(x1.Points))
+	render := func(x *sched.Exec, strip bool) string {
+		var b strings.Builder
+		for _, r := range x.Results {
+			if obs, ok := r.([]string); ok && strip {
+				fmt.Fprint(&b, stripRandom(obs))
+			} else {
+				fmt.Fprint(&b, r)
+			}
+		}
+		fmt.Fprint(&b, len(x.Points))
+		return b.String()
+	}
 	x2, err := sched.Run(mk(), x1.Choices, 20*time.Second)
 	if err != nil {
-		return core.Fail("HARNESS: divergence replaying the first schedule: %v", err)
+		return core.Fail("the first schedule cannot be replayed: %v (the sequence of scheduling points depends on something other than the schedule)", err)
 	}
-	if r2 := fmt.Sprint(x2.Results, len(x2.Points)); r1 != r2 {
-		return core.Fail("HARNESS: nondeterministic execution: same schedule, different observations:\n%s\n%s", r1, r2)
+	if render(x1, true) != render(x2, true) {
+		return core.Fail("scenario %s: the SAME schedule executed twice on fresh tensors gives different results (hidden state shared between executions):\n%s\n%s", sc.name(bs), render(x1, true), render(x2, true))
+	}
+	if render(x1, false) != render(x2, false) {
+		// only the random values differ although the global source was re-seeded:
+		// randomness that does not come from the seeded source alone (C18's subject)
+		c.Count("random_values_not_reproducible_after_reseeding", 1)
 	}
 	// choose the preemption bound that can be completed exhaustively for this
 	// scenario: with N scheduling points and T threads there are about
